@@ -14,6 +14,7 @@ var commands = map[string]func([]string){
 	"det":          cmdDet,
 	"corpus":       cmdCorpus,
 	"forms":        cmdForms,
+	"forms-large":  cmdFormsLarge,
 	"lits-num":     cmdLitsNum,
 	"lits-str":     cmdLitsStr,
 	"lits-tag":     cmdLitsTag,
